@@ -163,6 +163,10 @@ class SimNet:
             self.trace.append(ev)
             self.log.append(ev)
             if g is not None:
+                if len(data) > 27 and data[22] not in (250, 232):      # signed introduction messages
+                    klen = int.from_bytes(data[23:25], "big")
+                    known = data[25:25 + klen] in g.node.network.verified_by_public_key_bin
+                    _hit("lazy_wrapper:known-sender" if known else "lazy_wrapper:unknown-sender")
                 prev = self.current
                 self.current = g
                 try:
@@ -233,6 +237,128 @@ def new_mapping(lay, w, i: int, roam: bool):
     return b, (box["ip"], port)
 
 
+BRANCHES: dict = {}
+
+
+def _hit(name: str):
+    BRANCHES[name] = BRANCHES.get(name, 0) + 1
+
+
+def install_observers(community_cls):
+    """Wrap (once per process) the Network methods and the Community handler whose bodies are HAND-WRITTEN in the Lean model,
+    to record from the pre-state which branch the real code is about to take.  The wrappers only read; the verdict never
+    depends on them except through `REQUIRED_BRANCHES` (a branch class that is never reached = lost coverage = exit 2)."""
+    from ipv8.peerdiscovery.network import Network
+    orig_add, orig_disc, orig_walk = Network.add_verified_peer, Network.discover_address, Network.get_walkable_addresses
+    orig_resp = community_cls.on_introduction_response
+
+    def add_verified_peer(self, peer):
+        try:
+            key = peer.public_key.key_to_bin()
+            addrs = list(peer.addresses.values())
+            if peer.mid in self.blacklist_mids:
+                _hit("add_verified_peer:own-mid")
+            elif key in self.verified_by_public_key_bin:
+                _hit("add_verified_peer:known-key")
+            elif any(a in self._all_addresses for a in addrs):
+                _hit("add_verified_peer:new-key-address-known")
+            elif all(a not in self.blacklist for a in addrs):
+                _hit("add_verified_peer:new-key-fresh-addresses")
+            else:
+                _hit("add_verified_peer:declined-blacklisted-address")
+        except Exception:
+            _hit("observer-error")
+        return orig_add(self, peer)
+
+    def discover_address(self, peer, address, service=None, new_style=False):
+        try:
+            if address in self.blacklist:
+                _hit("discover_address:blacklisted-address")
+            elif address not in self._all_addresses:
+                _hit("discover_address:new-address")
+            elif not self._all_addresses[address].introduced_by:
+                _hit("discover_address:adopts-record-without-introducer")
+            elif self._all_addresses[address].introduced_by not in self.verified_by_public_key_bin:
+                _hit("discover_address:adopts-record-of-unverified-introducer")
+            else:
+                _hit("discover_address:keeps-record-of-verified-introducer")
+        except Exception:
+            _hit("observer-error")
+        return orig_disc(self, peer, address, service, new_style)
+
+    def get_walkable_addresses(self, service_id=None, old_style=False):
+        try:
+            if service_id:
+                for address, (intro, svc, _ns) in self._all_addresses.items():
+                    holders = [p for p in self.verified_peers if address in p.addresses.values()]
+                    if any(service_id in self.services_per_peer.get(p.public_key.key_to_bin(), ()) for p in holders):
+                        _hit("get_walkable_addresses:excluded-address-of-peer-of-this-service")
+                        continue
+                    if holders:
+                        _hit("get_walkable_addresses:address-of-peer-of-another-service-only")
+                    if service_id in self.services_per_peer.get(intro, ()):
+                        _hit("get_walkable_addresses:included-introducer-runs-service")
+                    elif svc == service_id:
+                        _hit("get_walkable_addresses:included-discovered-through-service")
+                    else:
+                        _hit("get_walkable_addresses:excluded-by-service-filter")
+        except Exception:
+            _hit("observer-error")
+        return orig_walk(self, service_id, old_style)
+
+    def on_introduction_response(self, peer, dist, payload):
+        r = orig_resp(self, peer, dist, payload)
+        try:
+            zero = ("0.0.0.0", 0)
+            wan, lan, mine = payload.wan_introduction_address, payload.lan_introduction_address, self.my_estimated_wan
+            if wan != zero and wan[0] != mine[0]:
+                _hit("introductions:other-wan-ip" + ("+lan" if lan != zero else ""))
+            elif lan != zero and wan[0] == mine[0]:
+                _hit("introductions:same-wan-ip-lan-only")
+            elif wan != zero:
+                _hit("introductions:same-wan-ip-no-lan-guess")
+            else:
+                _hit("introductions:nothing-introduced")
+        except Exception:
+            _hit("observer-error")
+        return r
+
+    Network.add_verified_peer = add_verified_peer
+    Network.discover_address = discover_address
+    Network.get_walkable_addresses = get_walkable_addresses
+    community_cls.on_introduction_response = on_introduction_response
+    return BRANCHES
+
+
+# Every branch class the design lists for the hand-written part of the model (design.d/C13.md, coverage table) and for the
+# simulator.  A quick or thorough run in which one of them is never reached has silently lost coverage: exit 2.
+REQUIRED_BRANCHES = [
+    "add_verified_peer:own-mid", "add_verified_peer:known-key", "add_verified_peer:new-key-address-known",
+    "add_verified_peer:new-key-fresh-addresses", "add_verified_peer:declined-blacklisted-address",
+    "discover_address:blacklisted-address", "discover_address:new-address",
+    "discover_address:adopts-record-without-introducer", "discover_address:adopts-record-of-unverified-introducer",
+    "discover_address:keeps-record-of-verified-introducer",
+    "get_walkable_addresses:excluded-address-of-peer-of-this-service",
+    "get_walkable_addresses:address-of-peer-of-another-service-only",
+    "get_walkable_addresses:included-introducer-runs-service", "get_walkable_addresses:included-discovered-through-service",
+    "get_walkable_addresses:excluded-by-service-filter",
+    # (not required: "introductions:other-wan-ip" without LAN, "introductions:same-wan-ip-no-lan-guess" and
+    #  "introduced:no-lan-recorded" need an introducer that holds a verified IPv4 peer WITHOUT a LAN slot; since both
+    #  requests and responses teach the LAN address (fix 4c4fb6a) no history of the simulated space produces one.  Those
+    #  branches of the translated decisions are covered by theorems only: requester_walks_wan / requester_walks_only_handed.)
+    "introductions:other-wan-ip+lan", "introductions:same-wan-ip-lan-only", "introductions:nothing-introduced",
+    "lazy_wrapper:known-sender", "lazy_wrapper:unknown-sender",
+    "puncture:to-wan-walker", "puncture:to-lan-walker",
+    "introduced:recorded-addresses", "introduced:own-machine", "introduced:nobody",
+    "on_introduction_request:dropped-at-capacity", "on_introduction_request:answered-at-limit",
+    "net:lan", "net:wan", "net:drop:filtered", "net:drop:hairpin", "net:drop:lanNoHost", "net:drop:noHost", "net:drop:null",
+    "net:drop:unroutable",
+    "msg:req0", "msg:req1", "msg:resp0", "msg:resp1", "msg:preq0", "msg:preq1", "msg:punc0", "msg:punc1",
+    "op:remap", "op:roam", "op:remove-peer", "op:restart", "op:ask", "op:walk-walkable", "op:walk-junk", "op:set-age",
+    "op:blacklist", "op:walk-self",
+]
+
+
 class World:
     """Real Community nodes on a SimNet, plus the protocol lines for the model."""
 
@@ -278,6 +404,7 @@ class World:
             return w.choose(seq) if w is not None else seq[0]
         epmod.get_lan_addresses = lan_addresses
         com.choice = choice
+        env["branches"] = install_observers(Community)
         cls._env = env
         return env
 
@@ -364,9 +491,27 @@ class World:
                     f"wi={sa(p.wan_introduction_address)} ins={1 if p.intro_supports_new_style else 0}")
         return f"punc{ns} k={k} id={p.identifier} l={sa(p.source_lan_address)} w={sa(p.source_wan_address)}"
 
+    def note_branches(self, src: int, dst, data: bytes):
+        """branches of the translated decisions as far as the packets show them (coverage statistics only)"""
+        d = self.describe(data)
+        f = dict(t.split("=") for t in d.split()[1:] if "=" in t)
+        if d.startswith("punc"):
+            _hit("puncture:to-wan-walker" if sa(dst) == f["w"] else "puncture:to-lan-walker")
+        elif d.startswith("resp"):
+            if f["wi"] == "0:0":
+                _hit("introduced:nobody")
+            elif f["li"].split(":")[0] == str(ip2int(self.net.hosts[src].lan[0])) and f["li"] != f["wi"]:
+                _hit("introduced:own-machine")
+            elif f["li"] == "0:0":
+                _hit("introduced:no-lan-recorded")
+            else:
+                _hit("introduced:recorded-addresses")
+
     def trace_str(self) -> str:
         if not self.net.trace:
             return "-"
+        for s, d, data, _out in self.net.trace:
+            self.note_branches(s, d, data)
         return " ; ".join(f"{s}/{self.svc_of(data)}>{sa(d)} {self.describe(data, True)} ={out}"
                           for s, d, data, out in self.net.trace)
 
@@ -609,7 +754,7 @@ def scripted(ctx: Ctx, cfg: dict, use_model: bool, batch: list):
             R = w.add_host(*lay.boxed_host(lay.new_box()), tR)
             P = w.add_host(*lay.public_host(), tP)
         extras = []
-        for _ in range(cfg["ncand"] - 1):
+        for _ in range(max(cfg["ncand"], 2 if klass == "bootstrap" else 1) - 1):
             where = rng.choice(["public", "own", "own", "share"])
             if where == "public":
                 spec = lay.public_host()
@@ -654,7 +799,7 @@ def scripted(ctx: Ctx, cfg: dict, use_model: bool, batch: list):
             w.set_max_peers(I, -1)
         if klass == "capacity":
             # the introducer holds exactly max_peers peers when the requester's request arrives: it still answers
-            w.set_max_peers(I, len(cands))
+            w.set_max_peers(I, len(cands) - (1 if cfg["seed"] % 2 else 0))
         if klass == "own-machine":
             w.walk(I, hosts[X].wan)          # the introducer learns its WAN address
             ctx.count("own-machine:introducer-wan-known:%s" % (tuple(hosts[I].node.my_estimated_wan) == hosts[I].wan))
@@ -768,6 +913,17 @@ def scripted(ctx: Ctx, cfg: dict, use_model: bool, batch: list):
                 w.walk(R, hosts[X].wan, 1)
             w.query_all()
             # ---- the scripted introduction ---------------------------------------------------------------------
+            if klass == "capacity" and cfg["seed"] % 2:
+                # one peer more than max_peers: the request is not answered and the property says nothing
+                ev = w.walk(R, iaddr, s)
+                w.query_all()
+                if any(src == I for src, _d, _x, _o in ev):
+                    ctx.oracle_fail("on_introduction_request:answered-above-capacity",
+                                    "the introducer answered although it holds more than max_peers peers", {"kind": "scripted", "cfg": cfg})
+                _hit("on_introduction_request:dropped-at-capacity")
+                return
+            if klass == "capacity":
+                _hit("on_introduction_request:answered-at-limit")
             introduce_and_check(s, new)
             if klass == "restart" and s == 0:
                 # the requester shuts down and starts again from its snapshot: the introduced peer's address is known
@@ -801,6 +957,22 @@ def scripted(ctx: Ctx, cfg: dict, use_model: bool, batch: list):
         if cfg.get("overlays") == "other-first" and klass == "std":
             phase(1)          # requester and introduced peer become peers in overlay 1 first (shared Network) …
         phase(0)              # … and are then introduced to each other in overlay 0
+        if klass == "bootstrap" and extras:
+            # a second introduction hands the requester an address it has on its blacklist (another bootstrap server):
+            # it must be neither recorded as walkable nor walked to
+            e0 = extras[0]
+            was_known = hosts[e0].wan in [tuple(a) for a in hosts[R].node.network._all_addresses]
+            ctx.count("bootstrap:blacklisted-address-already-in-table:%s" % was_known)
+            w.blacklist(R, hosts[e0].wan)
+            w.set_pref(I, [e0] + [k for k in range(n) if k not in (e0, I)])
+            w.walk(R, iaddr, 0)
+            w.query_all()
+            # (an address that was in the table BEFORE it was blacklisted stays there: blacklisting does not purge, and the
+            #  property says nothing about that)
+            if not was_known and hosts[e0].wan in [a for a, _ in w.walkable(R, 0)]:
+                ctx.oracle_fail("discover_address:blacklisted-address-walkable",
+                                "an introduced address that is on the requester's blacklist is reported as walkable",
+                                {"kind": "scripted", "cfg": cfg})
         for k, v in w.raised.items():
             ctx.count("api-raised:" + k, v)
         nontrivial = any(o.startswith(("drop:filtered", "lan:")) for _, _, _, o in w.net.log)
@@ -1007,6 +1179,7 @@ def random_history(ctx: Ctx, seed: int, use_model: bool, batch: list):
                     w.set_clock(h.idx, age)
                     ctx.count("op:set-age")
         nops = rng.randrange(6, 26)
+        blacklisted: set = set()
         for _ in range(nops):
             i = rng.randrange(nh)
             sv = 0 if rng.random() < 0.7 else 1
@@ -1022,6 +1195,13 @@ def random_history(ctx: Ctx, seed: int, use_model: bool, batch: list):
             if rng.random() < 0.04:
                 ctx.count("op:restart")
                 w.restart(rng.randrange(1, nh))
+            if rng.random() < 0.05 and nh > 3:
+                j = rng.randrange(1, nh)
+                if j != i:
+                    ctx.count("op:blacklist")      # node i treats host j like a bootstrap server: never a peer, never walked to
+                    w.blacklist(i, hosts[j].wan)
+                    blacklisted.add(i)
+                    blacklisted.add(j)
             if rng.random() < 0.06:
                 ps = sorted(set(w.peers(i, 0)) | set(w.peers(i, 1)))
                 if ps:
@@ -1054,6 +1234,9 @@ def random_history(ctx: Ctx, seed: int, use_model: bool, batch: list):
                 else:
                     ctx.count("op:walk-bootstrap")
                     w.walk(i, hosts[0].wan, sv)
+            elif r < 0.93:
+                ctx.count("op:walk-self")
+                w.walk(i, hosts[i].wan if not hosts[i].box else hosts[i].lan, sv)
             else:
                 ctx.count("op:walk-junk")
                 w.walk(i, rng.choice([("0.0.0.0", 0), ("10.9.9.9", 1), (rand_public_ip(rng, set()), 7), (hosts[i].lan[0], 1)]), sv)
@@ -1062,6 +1245,7 @@ def random_history(ctx: Ctx, seed: int, use_model: bool, batch: list):
         w.query_all()
         # ---- closing oracle: after the random history, host 0 introduces two nodes that do not know each other ---------
         pairs = [(a, b) for a in range(1, nh) for b in range(1, nh) if a != b
+                 and a not in blacklisted and b not in blacklisted
                  and not knows(w, a, b) and not knows(w, b, a)]
         if pairs:
             R, P = rng.choice(pairs)
@@ -1221,6 +1405,20 @@ def run(ctx: Ctx):
             flush(ctx, batch)
     flush(ctx, batch)
     sample_trace(ctx)
+    for k, v in BRANCHES.items():
+        ctx.count("branch:" + k, v)
+    have = dict(ctx.counts)
+    missing = [b for b in REQUIRED_BRANCHES
+               if not (have.get("branch:" + b) or have.get(b))]
+    ctx.extra["required_branch_classes"] = len(REQUIRED_BRANCHES)
+    ctx.extra["missing_branch_classes"] = missing
+    import vlib
+    known_sigs = {k.get("signature") for k in vlib.load_known_findings()
+                  if k.get("property") == PROPERTY and k.get("status") == "known"}
+    new_failures = [f for f in ctx.failures if f["signature"] not in known_sigs]
+    if missing and not new_failures and not ctx.disagreements and not ctx.broken:
+        from vlib import InfraError
+        raise InfraError("coverage lost: branch classes never reached in this run: " + ", ".join(missing))
 
 
 def sample_trace(ctx: Ctx):
